@@ -549,32 +549,32 @@ impl Simulation {
         loop
             //@[
             invariant
-                d >= 1,
-                self.scheduler_queue.view()[0].origin == current_key.1, !self.scheduler_queue.view()[0].cancelled,
+                d >= 1,     //@ C01,C07 #current-key-is-the-live-head
+                self.scheduler_queue.view()[0].origin == current_key.1, !self.scheduler_queue.view()[0].cancelled,     //@ C01,C07 #current-key-is-the-live-head
                 tasks.len() > 0 ==> g.tor[g.tor.len() - 1] < current_key.1,                       //@ C07
-                t == current_key.0.t, t <= upper_time_bound.t, t > time0,
-                q0 == old(self).scheduler_queue.view(), pre == *old(self), old(self).wf(),
-                live_aids(q0.subrange(0, nle(q0, t) as int)) == live_aids(qa.subrange(0, kk)),
-                sorted(qa), kk == nle(qa, t),
-                forall|i: int| 0 <= i < kk ==> (#[trigger] qa[i]).time == t,
+                t == current_key.0.t, t <= upper_time_bound.t, t > time0,     //@ C01 #due-list-bookkeeping
+                q0 == old(self).scheduler_queue.view(), pre == *old(self), old(self).wf(),     //@ C01 #due-list-bookkeeping
+                live_aids(q0.subrange(0, nle(q0, t) as int)) == live_aids(qa.subrange(0, kk)),     //@ C01 #due-list-bookkeeping
+                sorted(qa), kk == nle(qa, t),     //@ C01 #due-list-bookkeeping
+                forall|i: int| 0 <= i < kk ==> (#[trigger] qa[i]).time == t,     //@ C01 #due-list-bookkeeping
                 self.time.val() == t,                                                             //@ C01,C18 #time-is-the-deadline-being-executed
                 self.clock.syncs() == syncs0,                                                     //@ C18
                 self.is_terminated == term0, !term0,                                              //@ C11
-                self.clock_tolerance == old(self).clock_tolerance,
-                self.model_names@ == old(self).model_names@, self.observers@ == old(self).observers@,
-                self.executor.n_models() == old(self).executor.n_models(),
-                self.executor.usable(),
+                self.clock_tolerance == old(self).clock_tolerance,     //@ C01 #due-list-bookkeeping
+                self.model_names@ == old(self).model_names@, self.observers@ == old(self).observers@,     //@ C01 #due-list-bookkeeping
+                self.executor.n_models() == old(self).executor.n_models(),     //@ C01 #due-list-bookkeeping
+                self.executor.usable(),                                                          //@ C11 #executor-usable-unless-terminated
                 self.executor.run_at() == old(self).executor.run_at(),                                //@ C11,C18
-                syncs0 == old(self).clock.syncs(), pend0 == old(self).executor.spawned(), time0 == old(self).time.val(),
-                syncs0.len() > 0, term0 == old(self).is_terminated,
-                sorted(self.scheduler_queue.view()), no_zero_period(self.scheduler_queue.view()),
-                due_inv(qa, kk, t, self.scheduler_queue.view(), d),
+                syncs0 == old(self).clock.syncs(), pend0 == old(self).executor.spawned(), time0 == old(self).time.val(),     //@ C01 #due-list-bookkeeping
+                syncs0.len() > 0, term0 == old(self).is_terminated,     //@ C01 #due-list-bookkeeping
+                sorted(self.scheduler_queue.view()), no_zero_period(self.scheduler_queue.view()),     //@ C01 #due-list-bookkeeping
+                due_inv(qa, kk, t, self.scheduler_queue.view(), d),     //@ C01 #due-list-bookkeeping
                 self.executor.spawned() == pend0 + tasks,                                         //@ C01,C07,C09
                 flat(tasks) == live_aids(qa.subrange(0, kk - d)),                                 //@ C01,C09
                 groups_ok(qa, tasks, g, kk - d),                                                  //@ C07
                 content_inv(qa, self.scheduler_queue.view(), t, kk - d), no_zero_period(qa),      //@ C08,C09,C10
-                qa == q0.subrange(n0, q0.len() as int), 0 <= n0, nle(q0, t) == n0 + kk, all_cancelled(q0.subrange(0, n0)),
-                n0 < q0.len(), !q0[n0].cancelled, q0[n0].time == t,
+                qa == q0.subrange(n0, q0.len() as int), 0 <= n0, nle(q0, t) == n0 + kk, all_cancelled(q0.subrange(0, n0)),     //@ C01 #due-list-bookkeeping
+                n0 < q0.len(), !q0[n0].cancelled, q0[n0].time == t,     //@ C01 #due-list-bookkeeping
             decreases d,                                                                          //@ C08 #step-loop-terminates
             //@]
         {
@@ -645,31 +645,31 @@ impl Simulation {
                 loop
                     //@[
                     invariant_except_break
-                        d >= 1,
-                        self.scheduler_queue.view()[0].origin == current_key.1, !self.scheduler_queue.view()[0].cancelled,
+                        d >= 1,                                                                                        //@ C07 #group-continues-while-the-head-has-the-same-key
+                        self.scheduler_queue.view()[0].origin == current_key.1, !self.scheduler_queue.view()[0].cancelled,   //@ C07 #group-continues-while-the-head-has-the-same-key
                     invariant
-                        t == current_key.0.t, t <= upper_time_bound.t,
-                        sorted(qa), kk == nle(qa, t),
-                        forall|i: int| 0 <= i < kk ==> (#[trigger] qa[i]).time == t,
-                        sorted(self.scheduler_queue.view()), no_zero_period(self.scheduler_queue.view()),
-                        due_inv(qa, kk, t, self.scheduler_queue.view(), d), d < d_in,
-                        self.executor.spawned() == pend0 + tasks,
-                        self.executor.run_at() == old(self).executor.run_at(),
-                        self.executor.n_models() == old(self).executor.n_models(),
-                        self.executor.usable(),
-                        self.time.val() == t, self.clock.syncs() == syncs0, self.is_terminated == term0,
-                        self.clock_tolerance == old(self).clock_tolerance,
-                        self.model_names@ == old(self).model_names@, self.observers@ == old(self).observers@,
+                        t == current_key.0.t, t <= upper_time_bound.t,     //@ C01 #due-list-bookkeeping
+                        sorted(qa), kk == nle(qa, t),     //@ C01 #due-list-bookkeeping
+                        forall|i: int| 0 <= i < kk ==> (#[trigger] qa[i]).time == t,     //@ C01 #due-list-bookkeeping
+                        sorted(self.scheduler_queue.view()), no_zero_period(self.scheduler_queue.view()),     //@ C01 #due-list-bookkeeping
+                        due_inv(qa, kk, t, self.scheduler_queue.view(), d), d < d_in,     //@ C01 #due-list-bookkeeping
+                        self.executor.spawned() == pend0 + tasks,     //@ C01 #due-list-bookkeeping
+                        self.executor.run_at() == old(self).executor.run_at(),     //@ C01 #due-list-bookkeeping
+                        self.executor.n_models() == old(self).executor.n_models(),     //@ C01 #due-list-bookkeeping
+                        self.executor.usable(),                                                          //@ C11 #executor-usable-unless-terminated
+                        self.time.val() == t, self.clock.syncs() == syncs0, self.is_terminated == term0,     //@ C01 #due-list-bookkeeping
+                        self.clock_tolerance == old(self).clock_tolerance,     //@ C01 #due-list-bookkeeping
+                        self.model_names@ == old(self).model_names@, self.observers@ == old(self).observers@,     //@ C01 #due-list-bookkeeping
                         flat(tasks) + action_sequence.aids() == live_aids(qa.subrange(0, kk - d)),                     //@ C01,C09
                         action_sequence.aids() == live_aids(qa.subrange(s0, kk - d)), s0 == kk - d_in, o_cur == current_key.1,   //@ C07
                         seg_origin(qa, s0, kk - d, o_cur), 0 <= s0,                                                    //@ C07
                         content_inv(qa, self.scheduler_queue.view(), t, kk - d), no_zero_period(qa),                   //@ C08,C09,C10
-                        next_key matches Some(k) ==> self.scheduler_queue.view().len() > 0 && self.scheduler_queue.view()[0].time == k.0.t
-                            && self.scheduler_queue.view()[0].origin == k.1 && !self.scheduler_queue.view()[0].cancelled
-                            && k.0.t <= upper_time_bound.t,
-                        next_key is None ==> self.scheduler_queue.view().len() == 0 || self.scheduler_queue.view()[0].time > upper_time_bound.t,
+                        next_key matches Some(k) ==> self.scheduler_queue.view().len() > 0 && self.scheduler_queue.view()[0].time == k.0.t     //@ C01 #due-list-bookkeeping
+                            && self.scheduler_queue.view()[0].origin == k.1 && !self.scheduler_queue.view()[0].cancelled     //@ C01 #due-list-bookkeeping
+                            && k.0.t <= upper_time_bound.t,     //@ C01 #due-list-bookkeeping
+                        next_key is None ==> self.scheduler_queue.view().len() == 0 || self.scheduler_queue.view()[0].time > upper_time_bound.t,     //@ C01 #due-list-bookkeeping
                     ensures
-                        next_key != Some(current_key),
+                        next_key != Some(current_key),                                                                 //@ C07 #group-ends-when-the-key-changes
                     decreases d,                                                                  //@ C08 #group-loop-terminates
                     //@]
                 {
